@@ -286,6 +286,11 @@ impl Exec {
     async fn sync(&mut self) -> Result<(), String> {
         self.quiesce().await;
         let events: Vec<(TransactionID, &'static str, LoopStep)> = self.trace.borrow_mut().drain(..).collect();
+        if events.len() >= 50_000 {
+            let last: Vec<String> = events[events.len() - 6..].iter().map(|e| format!("{:?}:{}:{:?}", e.0, e.1, e.2)).collect();
+            self.violations.push(("busy-loop".into(), format!("{}:{:?}", events[events.len() - 1].1, events[events.len() - 1].2), format!("a transaction loop of the real daemon spun 50000 times without ever waiting: {:?}", last)));
+            return Err("busy loop in a real transaction task".into());
+        }
         if std::env::var("VERIF_E2_DEBUG").is_ok() {
             println!("  t={}ms real loop steps: {:?}", self.now_ms(), events.iter().map(|e| format!("{}:{:?}", e.1, e.2)).collect::<Vec<_>>());
         }
@@ -379,11 +384,21 @@ impl Exec {
                     }
                 }
                 if let ExtEv::Timeout(_) = ext {
+                    // two timers of one transaction a few ms apart: the real loop handles them one by
+                    // one, the twin (which runs a few ms behind) sees both expired at its first
+                    // call. The comparison is ambiguous: the schedule is pruned, not judged.
+                    if timeouts_seen.contains(&(ti, side)) {
+                        return Err("AMBIGUOUS-TIMERS".into());
+                    }
+                    // the twin runs a few ms behind the real transaction (its steps are applied
+                    // after the real ones): let its timer expire too; more than 50 ms means the
+                    // real timer fired early
                     match t.world.until(side) {
-                        Some(u) if u <= Duration::from_millis(900) => {}
-                        // two timers a few ms apart: the real loop handles them one by one, the
-                        // twin (which runs a few ms behind) sees both expired at its first call
-                        _ if timeouts_seen.contains(&(ti, side)) => {}
+                        Some(u) if u <= Duration::from_millis(50) => {
+                            if !u.is_zero() {
+                                tokio::time::sleep(u).await;
+                            }
+                        }
                         other => return Err(format!("the real {} transaction {:?} handled a timeout but its twin's next expiry is {:?} away", role, id, other)),
                     }
                     timeouts_seen.push((ti, side));
@@ -401,36 +416,44 @@ impl Exec {
                 }
                 if let ExtEv::Send(_) = ext {
                     let dmn = if side == Side::S { t.spec.from } else { t.spec.to };
-                    match rec.out.first() {
-                        Some((_, p)) => self.slot_expect[dmn].push_back(p.clone().encode()),
-                        None => return Err(format!("the real {} transaction {:?} sent a PDU, the twin's send_pdu produced none", role, id)),
+                    // (a SEND branch may end without a PDU, e.g. when send_naks raises the NAK limit
+                    // fault instead: the permit is dropped and the slot stays free)
+                    if let Some((_, p)) = rec.out.first() {
+                        self.slot_expect[dmn].push_back(p.clone().encode());
                     }
                 }
             }
         }
-        // indications of the real daemons (ghost receivers' are not compared)
-        let mut real_inds: Vec<String> = vec![];
+        // indications of the real daemons. A ghost receiver (same id, started by a late PDU after the
+        // receiver had ended) raises indications of its own: for such ids the twin's indications
+        // must be contained in the real ones, for all others the multisets must be equal.
+        let mut real_inds: Vec<(bool, String)> = vec![];
         for (di, dh) in self.d.iter_mut().enumerate() {
             while let Ok(i) = dh.ind_rx.try_recv() {
                 let id = ind_id(&i);
-                // the sender's indications come from its daemon, the receiver's from the other one;
-                // a ghost receiver (same id, started by a late PDU after the receiver had ended)
-                // raises its own, which belong to no twin
                 if let Some(t) = self.twins.iter().find(|t| t.id == id) {
-                    let from_sender = di == t.spec.from;
-                    let from_receiver = di == t.spec.to;
-                    if from_sender || (from_receiver && !self.ghost.contains_key(&id)) {
-                        real_inds.push(format!("{:?}", i));
+                    let ghosted = di == t.spec.to && self.ghost.contains_key(&id);
+                    if di == t.spec.from || di == t.spec.to {
+                        real_inds.push((ghosted, format!("{:?}", i)));
                     }
                 }
             }
         }
-        real_inds.sort();
-        twin_inds.sort();
-        if real_inds != twin_inds {
-            let only_real: Vec<&String> = real_inds.iter().filter(|x| !twin_inds.contains(x)).collect();
-            let only_twin: Vec<&String> = twin_inds.iter().filter(|x| !real_inds.contains(x)).collect();
-            return Err(format!("indications differ: only real {:?}; only twin {:?}", only_real, only_twin));
+        let mut strict: Vec<String> = real_inds.iter().filter(|x| !x.0).map(|x| x.1.clone()).collect();
+        let mut loose: Vec<String> = real_inds.iter().filter(|x| x.0).map(|x| x.1.clone()).collect();
+        // twin indications not matched by a strict real one must be found among the loose ones
+        let mut unmatched_twin = vec![];
+        for ti in &twin_inds {
+            if let Some(p) = strict.iter().position(|x| x == ti) {
+                strict.remove(p);
+            } else if let Some(p) = loose.iter().position(|x| x == ti) {
+                loose.remove(p);
+            } else {
+                unmatched_twin.push(ti.clone());
+            }
+        }
+        if !strict.is_empty() || !unmatched_twin.is_empty() {
+            return Err(format!("indications differ: only real {:?}; only twin {:?}", strict, unmatched_twin));
         }
         // completeness: whatever the loop model says is due now, the real loop must have done
         for t in &self.twins {
@@ -679,9 +702,11 @@ impl Exec {
                             if !early.is_empty() {
                                 return Err(format!("a timer fired at least 1 s before the twin's earliest expiry: {:?}", early));
                             }
-                            Duration::from_secs(1) + Duration::from_millis(25)
+                            // … and exactly to the twin's expiry (the real timer, started a few ms
+                            // earlier, has fired by then): no margin, so the lag cannot accumulate
+                            Duration::from_secs(1)
                         } else {
-                            m + Duration::from_millis(25)
+                            m
                         }
                     }
                     None => Duration::from_secs(self.scn.cfg.t_inact as u64),
@@ -853,6 +878,7 @@ pub struct DbxResult {
     pub agreed: u64,
     pub choice_points: u64,
     pub incomplete: u64,
+    pub pruned_ambiguous: u64,
     pub steps_validated: u64,
     pub divergences: Vec<String>,
     pub violations: Vec<Violation>,
@@ -867,8 +893,10 @@ pub fn explore_dbx(scn: &DScn) -> DbxResult {
     // level 0: the default schedule; level k: prefixes with exactly k deviations
     let mut frontier: Vec<Vec<usize>> = vec![vec![]];
     for level in 0..=scn.dev_bound {
-        let runs: Vec<(Vec<usize>, RunResult)> = frontier.par_iter().map(|p| (p.clone(), run_schedule(scn, p))).collect();
         let mut next = vec![];
+        // in chunks, so that the results of a level never sit in memory all at once
+        for chunk in frontier.chunks(4096) {
+        let runs: Vec<(Vec<usize>, RunResult)> = chunk.par_iter().map(|p| (p.clone(), run_schedule(scn, p))).collect();
         for (prefix, r) in runs {
             res.schedules += 1;
             res.choice_points += r.points.len() as u64;
@@ -877,7 +905,9 @@ pub fn explore_dbx(scn: &DScn) -> DbxResult {
                 res.incomplete += 1;
             }
             if let Some(dv) = &r.divergence {
-                if res.divergences.len() < 5 {
+                if dv.starts_with("AMBIGUOUS-TIMERS") {
+                    res.pruned_ambiguous += 1;
+                } else if res.divergences.len() < 5 {
                     res.divergences.push(format!("{}: {}", scn.name, dv));
                 }
             } else {
@@ -904,6 +934,7 @@ pub fn explore_dbx(scn: &DScn) -> DbxResult {
                     }
                 }
             }
+        }
         }
         frontier = next;
         if frontier.is_empty() {
